@@ -228,7 +228,8 @@ Section RUN.
   Definition finished_h (s : state) (k : tid) : bool := Nat.leb (length (progs k)) (th_pc (getth s k)).
   (* the harness marks a thread finished when its entry function is about to return; T0 (a main thread)
      parks instead and stays a valid target *)
-  Definition finished_a (s : state) (k : tid) : bool := is_user (th_kind (getth s k)) && finished_h s k.
+  Definition finished_a (s : state) (k : tid) : bool :=
+    is_user (th_kind (getth s k)) && negb (th_fresh (getth s k)) && finished_h s k.
   Definition alive (s : state) (k : tid) : bool :=
     let th := getth s k in
     Nat.ltb k (s_n s) && negb (tstate_eqb (th_state th) NOTCREATED) &&
